@@ -34,7 +34,10 @@ func NoRet(s string)                         {}
 func ThreeRet(s string) (string, int, error) { return s, 0, nil }
 func TwoRetNoErr(s string) (string, int)     { return s, 0 }
 func Variadic(s ...string) string            { return "" }
-func Generic[T any](t T) T                   { return t }
+
+// Any takes whatever it is given: `Any(src.NameErr())` compiles and swallows the error.
+func Any(xs ...interface{}) string { return "" }
+func Generic[T any](t T) T         { return t }
 
 // MyErr implements error; a function whose last result is *MyErr does NOT return the error type:
 // wired as "x, err = f()" a nil *MyErr becomes a non-nil error (typed nil), so such functions are
